@@ -9,7 +9,7 @@ OWN = {
     "C02": r"^(C02|C07\.exact|C08\.exact|C09|C10\.instant|C01\.bool)",
     "C07": r"^(C07|C01|C02\.wellformed|C02\.kind)",
     "C08": r"^(C08|C01|C02\.wellformed|C02\.kind)",
-    "C09": r"^(C09|C01|C02\.wellformed|C02\.kind|C02\.absent)",
+    "C09": r"^(C09|C01|C02\.wellformed|C02\.kind|C02\.absent|C03)",
     "C10": r"^(C10|C01|C02\.wellformed|C02\.kind|C02\.absent)",
     "C04": r"^(C02\.ref|C02\.absent|C02\.wellformed|C02\.kind|C01)",
     "C06": r"^(C06|C02\.(?!dateUnit)|C07\.exact|C08\.exact|C09|C10\.instant|C16\.panic)",
@@ -339,6 +339,17 @@ def plan_c03(run, tmp):
     return V.finish(run, "model_checking", "the TLA+ reference encoder (HCodec) enumerates / draws legal encodings; each is decoded by the real decoder and TLC compares the result with the decoding of the library's own rendering")
 
 
+def plan_c09(run, tmp):
+    known = V.load_known()
+    hx = V.build_harness(tmp)
+    codec_stage(run, tmp, hx, known, "c09", "c09")
+    th = run.tier == "thorough"
+    alt_stage(run, tmp, hx, known, "c09chunks", "c09", "exact",
+              hcodec_cfg(maxchunks=4 if th else 3, maxdev=4 if th else 3, wide="FALSE"),
+              mc_note="reference encoder: strings and binaries at top level, as list element, map key and value and struct field, in every legal chunking of up to %d chunks (empty chunks included) and every length form" % (4 if th else 3))
+    return V.finish(run, "model_checking", "string/binary round trips validated by TLC: payload, character counts, chunk boundaries; every legal chunking of short strings and binaries (enumerated by the TLA+ reference encoder) decoded by the real decoder")
+
+
 def plan_c05(run, tmp):
     known = V.load_known()
     hx = V.build_harness(tmp)
@@ -653,7 +664,7 @@ PLANS = {
     "C02": plan_c02,
     "C07": plan_codec("c07", scalar_mc, "integer round trips validated by TLC: exactness and shortest form per wire kind; 2^32-point sweeps (thorough: exhaustive, quick: every 512th value) against TLC-exported region tables", sweeps=("int32", "int64")),
     "C08": plan_codec("c08", scalar_mc, "double round trips validated by TLC against the octet-level IEEE classification; sweep of the float32 bit patterns (thorough: all 2^32, quick: every 512th) against the TLC-exported table", sweeps=("float32",)),
-    "C09": plan_codec("c09", None, "string/binary round trips validated by TLC: payload, character counts, chunk boundaries"),
+    "C09": plan_c09,
     "C04": plan_c04,
     "C06": plan_codec("c06", stream_mc, "multi-value streams through one encoder/decoder and one serializer over a counting reader; TLC threads the stream state (class, type and ref tables) through the whole history: framing offsets, denotation with cross-value refs, order, no carrier"),
     "C15": plan_codec("c15", fault_mc, "fault enumeration: for each value and writer-taking entry point every Write index k x 4 fault kinds is executed against the real encoder; each run's writer log is replayed by TLC through HFault (FaultSurfaces)", module="TraceFault", level="fault_enumeration"),
